@@ -575,6 +575,10 @@ def gen(ctx):
                 "downsample": [None, None, 10, 25][(i // 3) % 4],
                 "motion_filter": [None, [0.5, 5.0], None][(i // 4) % 3] if fmt != "kitti" else None,
                 "t_start": None, "t_end": None, "t_max_diff": 0.01, "t_offset": toff if fmt != "kitti" else 0.0}
+        if fmt != "kitti" and i % 6 == 1:
+            # both pre-processing options at once, with thresholds that still drop poses after the down-sampling
+            opts["downsample"] = max(8, (2 * n) // 3)
+            opts["motion_filter"] = [float(rng.choice([0.7, 1.2])), 40.0]
         if fmt != "kitti" and i % 7 == 0:
             opts["t_start"], opts["t_end"] = sref[2], sref[-3]
         if cli_rel in ("trans_part", "point_distance") and i % 3 == 0:
